@@ -305,6 +305,51 @@ var c14Faults = []c14Fault{
 		}
 		return recs
 	}},
+	{"other-legal-event-and-attribute-tags", func(r *fw.Rand, recs []*gen.Spec) []*gen.Spec {
+		// everything the standard allows under a person or a family besides
+		// birth, baptism, death and burial; for one person these are all there is
+		indi := []string{"CHR", "CREM", "ADOP", "BARM", "BASM", "BLES", "CHRA", "CONF", "FCOM", "ORDN", "NATU", "EMIG", "IMMI", "CENS", "PROB", "WILL", "GRAD", "RETI", "EVEN",
+			"CAST", "DSCR", "EDUC", "IDNO", "NATI", "NCHI", "NMR", "OCCU", "PROP", "RELI", "RESI", "SSN", "TITL", "FACT", "BAPL", "CONL", "ENDL", "SLGC"}
+		fam := []string{"ANUL", "CENS", "DIV", "DIVF", "ENGA", "MARB", "MARC", "MARR", "MARL", "MARS", "RESI", "EVEN", "SLGS", "NCHI"}
+		ev := func(tag string, k int) *gen.Spec {
+			e := &gen.Spec{Tag: tag}
+			switch k % 4 {
+			case 0:
+				e.Kids = []*gen.Spec{{Tag: "DATE", Value: fmt.Sprintf("%d MAR %d", 1+k%28, 1850+k%60)}, {Tag: "PLAC", Value: "Leeds, England"}}
+			case 1:
+				e.Kids = []*gen.Spec{{Tag: "DATE", Value: fmt.Sprint(1850 + k%60)}}
+			case 2:
+				e.Value = "Y"
+			}
+			return e
+		}
+		inds := c14Records(recs, "INDI")
+		for n, i := range inds {
+			if n == 0 && r.Bool() {
+				// only such events: nothing else says when this person lived
+				var ks []*gen.Spec
+				for _, k := range i.Kids {
+					if k.Tag != "BIRT" && k.Tag != "BAPM" && k.Tag != "DEAT" && k.Tag != "BURI" {
+						ks = append(ks, k)
+					}
+				}
+				i.Kids = ks
+			}
+			for k := r.Range(1, 4); k > 0; k-- {
+				q := r.Intn(len(indi))
+				if r.Chance(1, 3) {
+					q = 0 // christenings are what most parish registers record
+				}
+				i.Kids = append(i.Kids, ev(indi[q], r.Intn(1000)))
+			}
+		}
+		for _, f := range c14Records(recs, "FAM") {
+			for k := r.Range(0, 3); k > 0; k-- {
+				f.Kids = append(f.Kids, ev(fam[r.Intn(len(fam))], r.Intn(1000)))
+			}
+		}
+		return recs
+	}},
 	{"no-dates-or-no-events-at-all", func(r *fw.Rand, recs []*gen.Spec) []*gen.Spec {
 		// nothing in the file says when anybody lived (what is estimated from
 		// relatives has to be estimated for everybody)
